@@ -44,6 +44,7 @@ type Controller struct {
 	Lost     string
 	Diverged string
 	Anomaly  string
+	OnStep   func(c *Controller) // called after every event, while no thread runs
 	active   bool
 }
 
@@ -193,11 +194,27 @@ func (c *Controller) Run() {
 				c.state[t] = sDone
 				c.mu.Unlock()
 			}
+			if c.OnStep != nil {
+				c.OnStep(c)
+			}
 		case <-time.After(15 * time.Second):
 			c.Lost = fmt.Sprintf("thread %d neither parked nor finished within 15 s (trace %v)", t, c.Trace)
 			return
 		}
 	}
+}
+
+// ParkedAt returns, per thread, the gate it is parked at ("" if not parked).
+func (c *Controller) ParkedAt() []string {
+	c.mu.Lock()
+	defer c.mu.Unlock()
+	out := make([]string, c.n)
+	for i := range out {
+		if c.state[i] == sParked {
+			out[i] = c.gateName[i]
+		}
+	}
+	return out
 }
 
 // Choices returns the decisions taken.
